@@ -251,10 +251,17 @@ Definition c01_rule (n : netlist) (exp : list (string * (Z * Z))) (r : sam_rule)
         "rule-not-declared"
         ("address-map rule [" +++ ZS (sr_start r) +++ "," +++ ZS (sr_end r) +++ ") -> " +++ idv_str (sr_idx r)
          +++ " corresponds to no declared range of the interface with that identity").
+Definition cfg_get (n : netlist) (k : string) : option string :=
+  option_map snd (find (fun p => str_eqb (fst p) k) (n_route_cfg n)).
 Definition chk_C01 (n : netlist) (exp : list (string * (Z * Z))) : fails :=
   guard (forallb (fun r => sr_start r <? sr_end r) (n_sam n)) "empty-rule" "an address-map rule is empty" ++
   guard (check_no_overlap (sam_as_rules n)) "overlap" "address-map rules overlap" ++
-  flat_map (c01_expected n) exp ++ flat_map (c01_rule n exp) (n_sam n).
+  flat_map (c01_expected n) exp ++ flat_map (c01_rule n exp) (n_sam n) ++
+  (* the network interface decodes over RouteCfg.NumSamRules rules (floo_route_comp: .NoRules(RouteCfg.NumSamRules),
+     C01_rtl_sam_lookup): a rule beyond that count is invisible to it *)
+  guard (opt_str_eqb (cfg_get n "NumSamRules") (Some (ZS (Z.of_nat (length (n_sam n)))))) "rules-not-visible"
+        ("RouteCfg.NumSamRules=" +++ show_opt (cfg_get n "NumSamRules") +++ " but Sam has " +++ ZS (Z.of_nat (length (n_sam n)))
+         +++ " rules: the network interface decodes over RouteCfg.NumSamRules of them").
 
 (* ---------------------------------------------------------------- C07: identities *)
 Definition pow2 (b : Z) : Z := 2 ^ b.
@@ -305,8 +312,6 @@ Definition chk_C07 (n : netlist) (names : list string) : fails :=
      end).
 
 (* ---------------------------------------------------------------- C13: counts *)
-Definition cfg_get (n : netlist) (k : string) : option string :=
-  option_map snd (find (fun p => str_eqb (fst p) k) (n_route_cfg n)).
 Definition enum_width_ok (e : Z * list (string * Z)) : bool :=
   forallb (fun p => (0 <=? snd p) && (snd p <? pow2 (fst e))) (snd e).
 
